@@ -173,6 +173,10 @@ func (k *kase) attempt(rpc, variant string, cid int, mayCommit bool, due types.C
 	if !mayCommit {
 		k.c.Oracle("bad-request-committed:"+class, "%s with %s was committed (revision %d -> %d)", rpc, variant, before.Revision.RevisionNumber, persisted.Revision.RevisionNumber)
 	}
+	if tip := k.w.rig.CM.Tip().Height; tip >= before.Revision.ProofHeight {
+		k.c.Oracle("persisted-past-proof-height:"+rpc, "%s persisted revision %d although the chain tip %d has reached the contract's proof height %d", rpc,
+			persisted.Revision.RevisionNumber, tip, before.Revision.ProofHeight)
+	}
 	if !before.Revisable {
 		k.c.Oracle("persisted-for-non-revisable-contract:"+rpc, "%s persisted revision %d of a contract that is not revisable (renewed=%v, proof height %d, tip %d)", rpc,
 			persisted.Revision.RevisionNumber, before.Renewed, before.Revision.ProofHeight, k.w.rig.CM.Tip().Height)
@@ -1247,6 +1251,50 @@ func expired() func(w *worker) {
 	}
 }
 
+
+// bigJump: the chain grows by more than 1000 blocks in a single AddBlocks call, past the proof
+// height of a contract.  The host's contractor has to follow the chain all the way (it fetches
+// updates in batches of 1000), so that the contract is no longer revisable and nothing consensus
+// would reject is signed.  Runs last: everything is expired afterwards.
+func bigJump() func(w *worker) {
+	return func(w *worker) {
+		c, err := w.rig.Form(rhpx.Key(rhpx.RenterKeyID), types.Siacoins(1000), types.Siacoins(2000), 1060)
+		if err != nil {
+			return
+		}
+		long := 9100
+		w.s.AddContract(long, c.ID)
+		w.cid, w.cur = long, nil
+		k := w.begin("big-jump", long)
+		tl, ti := w.s.TipLine()
+		k.c.Op(tl, ti)
+		k.run("append", variants()[0], false)
+		k.observe()
+		settled, err := w.rig.Jump(1100) // contract proof height = old tip + 1060: inside the jump, beyond its first 1000 blocks
+		if err != nil {
+			k.c.Oracle("harness-setup", "jump: %v", err)
+			k.done(false)
+			return
+		}
+		if ect, _ := w.rig.EC.Tip(); !settled || ect != w.rig.CM.Tip() {
+			k.c.Oracle("contractor-behind-chain", "after 1100 blocks added in one call the contractor stays at height %d, the chain is at %d", ect.Height, w.rig.CM.Tip().Height)
+		}
+		tl, ti = w.s.TipLine()
+		k.c.Op(tl, ti)
+		for _, rpc := range []string{"fund", "append", "free", "roots", "replA", "replP"} {
+			v := variants()[0]
+			v.commit = false
+			k.run(rpc, v, false)
+		}
+		r, resp := w.s.Latest(long)
+		k.c.Op(r.Op, r.Impl)
+		if r.Cls == "ok" && resp.Revisable {
+			k.c.Oracle("revisable-past-proof-height", "the host reports the contract revisable at chain height %d, proof height %d", w.rig.CM.Tip().Height, resp.Contract.ProofHeight)
+		}
+		k.done(true, "kind:big-jump")
+	}
+}
+
 // concurrent: the same RPC issued by several renters at once on one contract (oracle only: the
 // persisted revisions must still form a valid chain).
 func concurrent(idx int) func(w *worker) {
@@ -1367,6 +1415,9 @@ func Run(r *vh.Run) {
 			}
 			// changes the chain tip for everything after it: last
 			expired()(w)
+			if wi == 0 {
+				bigJump()(w)
+			}
 		}(wi)
 	}
 	go func() { wg.Wait(); close(out) }()
